@@ -345,6 +345,22 @@ def run (ctx):
              % (hc[-1].text(40), rxf.name, use.name), (rxf.module, hc[-1].ast), 'D3')
     else:
       ctx.undecided('R-EFFECT', rxf, "a flow-mod that names a buffer releases it", "handler dispatch / buffer use not found in %s" % rxf.name, rxf, 'D3')
+  # the configured miss length is kept as sent (0 is a legal value: "send no data with a buffered packet-in")
+  sc = sw.find_method('_rx_set_config')
+  if sc is not None:
+    ctx.analysed(sc); gsc = q.cfg_of(sc)
+    outs = {}
+    for val in (0, 64, 0xffff):
+      got = set()
+      for p_, e_ in q.paths_under(repo, sc.module, gsc, q.Env({sc.params[1] + '.miss_send_len': val, sc.params[1] + '.flags': 0}), gsc.entry, [gsc.exit], sw, limit=20):
+        got.add(e_.exact.get('self.miss_send_len', '?'))
+      outs[val] = got
+    if any('?' in g_ or not g_ for g_ in outs.values()):
+      ctx.undecided('R-AGREE', sc, "set-config stores the miss length it was given", "not evaluable (%s)" % outs, sc, 'D4')
+    else:
+      wrong_ = [(v_, sorted(g_)) for v_, g_ in outs.items() if g_ != {v_}]
+      ctx.ob('R-AGREE', sc, "set-config stores the miss length it was given", not wrong_, "0, 64 and 0xffff kept" if not wrong_ else
+             "set_config(miss_send_len=%s) leaves self.miss_send_len = %s: a controller that asks for no data in buffered packet-ins gets the default amount" % wrong_[0], sc, 'D4')
   packet_in_rules(ctx, repo, spi)
 
 def allocator_samples (ctx, repo, sw, alloc, g, clause):
